@@ -263,6 +263,29 @@ static void call_Crystal_ArrayInit(Ctx &c) {
   c.result = a ? "arr:ok" : "arr:NULL";
   if (a) Crystal_ArrayFree(a);
 }
+#ifdef XRLCALL_WRAP_CLOSE
+// linked with -Wl,--wrap=close: a close() of a descriptor that is not open (a second close of the library's own file, in a threaded program the
+// close of somebody else's file) is reported like a sanitizer finding and ends the run
+extern "C" int __real_close(int fd);
+extern "C" void __sanitizer_print_stack_trace(void) __attribute__((weak));
+extern "C" int __wrap_close(int fd) {
+  int rv = __real_close(fd);
+  if (rv != 0 && errno == EBADF) {
+    const char *lp = getenv("XRLCALL_ORACLE_LOG");      // fd 2 may be redirected while a call runs
+    FILE *f = lp ? fopen(lp, "a") : NULL;
+    for (FILE *o : {f, stderr}) {
+      if (!o) continue;
+      fprintf(o, "ORACLE-FAILURE runtime error: close() of descriptor %d which is not open (EBADF): closed twice, or never opened\n", fd);
+      fprintf(o, "SUMMARY: descriptor closed that is not open\n");
+      fflush(o);
+    }
+    if (__sanitizer_print_stack_trace) __sanitizer_print_stack_trace();
+    _exit(86);
+  }
+  return rv;
+}
+#endif
+
 static void call_error_api(Ctx &c) {
   // scenario: obtain an error from a failing call, copy it, propagate, match, clear - everything must stay consistent
   int code = c.geti();
@@ -318,6 +341,27 @@ static void call_private_array(Ctx &c) {
   } else s += ";q=none";
   Crystal_ArrayFree(a);
   c.result = s;
+}
+
+static void call_refused_builtin_load(Ctx &c) {
+  // a well-formed file with more crystals than the built-in collection can take, read into the built-in collection: parsed completely, then refused,
+  // nothing added.  (In threads mode only one thread issues these lines: it is the only one that touches the shared collection at all.)
+  int n = c.geti();
+  char path[256];
+  snprintf(path, sizeof path, "%s/xrlv.rb.%d.%lx.dat", getenv("VERIF_TMP") ? getenv("VERIF_TMP") : "/var/tmp", (int) getpid(), (unsigned long) pthread_self());
+  FILE *f = fopen(path, "w");
+  if (!f) { c.result = "rb:nofile"; return; }
+  for (int k = 0; k < n; k++) fprintf(f, "#S 14 zzoc_%04d\n#UCELL 5 5 5 90 90 90\n#N 5\n#L Z F X Y Z\n14 1.0 0 0 0\n", k);
+  fputs("#EOF\n", f);
+  fclose(f);
+  int n0 = -1, n1 = -1;
+  char **l = Crystal_GetCrystalsList(NULL, &n0, NULL);
+  if (l) { for (int i = 0; l[i]; i++) xrlFree(l[i]); xrlFree(l); }
+  int rv = Crystal_ReadFile(path, NULL, c.err());
+  unlink(path);
+  l = Crystal_GetCrystalsList(NULL, &n1, NULL);
+  if (l) { for (int i = 0; l[i]; i++) xrlFree(l[i]); xrlFree(l); }
+  c.result = "rb:rv=" + std::to_string(rv) + ";n=" + std::to_string(n0) + "->" + std::to_string(n1);
 }
 
 #ifndef XRLCALL_CPP_WRAPPERS
@@ -396,6 +440,7 @@ static callfn lookup(const std::string &name) {
   if (name == "Crystal_ArrayInit") return call_Crystal_ArrayInit;
   if (name == "@error_api") return call_error_api;
   if (name == "@private_array") return call_private_array;
+  if (name == "@refused_builtin_load") return call_refused_builtin_load;
   if (name == "@addcrystal") return call_addcrystal;
   return NULL;
 }
